@@ -354,7 +354,7 @@ def logger_facts():
     body = [re.sub(r'\s+', '', x) for x in m.group(1).split(';') if x.strip()]
     if any('"' in b for b in body):
         raise FactError('Logger::stop() body not recognised')
-    m = re.search(r'if \(msg_ptr->_str\.empty\(\)\)\s*// means exit', cpp)
+    m = re.search(r'if\s*\(\s*msg_ptr->_str\.empty\(\)\s*\)', cpp)
     if not m:
         raise FactError('exit test of the writer loop (empty string) not recognised in Logger::operator()')
     _emit('LoggerFacts', '/-- `Logger::_level_names` -/\ndef levelNames : List String := [%s]\n\n/-- `setw(..)` of the sequence column -/\ndef seqWidth : Nat := %d\n\n'
